@@ -22,6 +22,7 @@ def run(prog, chk):
         "unsupported combinations reach NotImplementedError: compreffor with non-CFF1, CFF2->CFF without subroutinising, unknown post format (R12.2)",
         "specialise iff >= SPECIALIZE, subroutinise iff >= SUBROUTINIZE, consistent with the IntEnum order; interpolatable masters force NONE (R12.3)",
         "options optimizeCFF/cffVersion/subroutinizer/roundTolerance reach their consumer by name (R12.4)",
+        "in the CFF outline compiler nothing that draws or builds is conditional on optimizeCFF / cffVersion / subroutinizer; optimizeCFF is only consumed as getCharString(optimize=...) (R12.5)",
     ]
     chk.not_decided += ["equality of the drawing operations across combinations (fontTools specialiser, cffsubr, compreffor)"]
     ix = prog.ix
@@ -183,6 +184,37 @@ def run(prog, chk):
            message="interpolatable OTF masters are no longer forced to CFFOptimization.NONE (specialised charstrings are not interpolatable)")
     chk.minimum("R12.3", 7)
 
+    # ---- R12.5 what is drawn does not depend on the encoding options
+    otf = ix.get_class(OTF_OUTLINE)
+    n5 = 0
+    for m in otf.methods.values():
+        if m.name == "__init__":
+            continue
+        for c in A.body_nodes(m.node):
+            if not isinstance(c, ast.Call):
+                continue
+            n5 += 1
+            bad = [g for g in conds(prog, m, c) if any(isinstance(x, (ast.Attribute, ast.Name)) and getattr(x, "attr", getattr(x, "id", "")) in
+                                                        ("optimizeCFF", "cffVersion", "subroutinizer") for x in ast.walk(g.test))]
+            if bad:
+                chk.ob("R12.5", f"{m.short}|{A.keytext(m.node, c)}", False, where(m, c),
+                       message=f"`{T(c, 60)}` in {m.short} only happens for some values of {T(bad[0].test, 40)}: what is drawn / built depends on an "
+                               f"option that must only affect the encoding")
+    chk.ob("R12.5", "OutlineOTFCompiler: no call is conditional on optimizeCFF / cffVersion / subroutinizer", True, otf.module.relpath,
+           detail=f"{n5} call sites outside __init__ examined")
+    # the option is only consumed as the `optimize=` argument of getCharString
+    reads = []
+    for m in otf.methods.values():
+        for x in A.body_nodes(m.node):
+            if isinstance(x, ast.Attribute) and x.attr == "optimizeCFF" and isinstance(x.ctx, ast.Load) and T(x.value) == "self":
+                par = prog.ix.parent(x)
+                role_ok = isinstance(par, ast.keyword) and par.arg == "optimize"
+                reads.append((m, x, role_ok))
+    for m, x, role_ok in reads:
+        chk.ob("R12.5", f"{m.short}|read of self.optimizeCFF is the optimize= argument", role_ok, where(m, x), detail=T(prog.ix.enclosing_stmt(x), 70),
+               message=f"{m.short} uses self.optimizeCFF for something other than the specialiser switch of getCharString")
+    chk.minimum("R12.5", 2)
+
     # ---- R12.4 plumbing
     rows = []
     for cq in (OTFC, IOTF, VCFF2):
@@ -229,6 +261,8 @@ MUTANTS = [
       "subroutinizer: Optional[str] = None", "pass", rule="R12.4"),
     M("outline stage stops forwarding the options", "ufo2ft/_compilers/baseCompiler.py", "BaseCompiler.compileOutlines",
       "kwargs = prune_unknown_kwargs(self.__dict__, self.outlineCompilerClass)", "kwargs = {}", rule="R12.4"),
+    M("unoptimised charstrings drawn through an extra filter pen (cf. seeded/C12a)", "ufo2ft/outlineCompiler.py", "OutlineOTFCompiler.getCharStringForGlyph",
+      "glyph.draw(pen)", "if self.optimizeCFF:\n    glyph.draw(pen)\nelse:\n    glyph.draw(ReverseContourPen(pen))", rule="R12.5"),
     # equivalents
     M("De Morgan form of the compreffor guard", "ufo2ft/postProcessor.py", "PostProcessor._subroutinize_with_compreffor",
       "cls._get_cff_version(otf) != CFFVersion.CFF or cffVersion != CFFVersion.CFF",
